@@ -37,7 +37,7 @@ func OCISpec(t *rapid.T, label string, o OCIOpts) *oci.Spec {
 		s.Annotations = map[string]string{"org.example/a": "b"}
 	}
 	if rapid.IntRange(0, 3).Draw(t, label+"proc") != 0 {
-		s.Process = &oci.Process{Cwd: "/work", Args: []string{"sh", "-c", rapid.SampledFrom([]string{"true", "true", "set -e\n\n# a script with an empty line\nexec true\n"}).Draw(t, label+"script")}, Terminal: rapid.Bool().Draw(t, label+"tty")}
+		s.Process = &oci.Process{Cwd: "/work", Args: []string{"sh", "-c", rapid.SampledFrom([]string{"true", "true", "set -e\n\n# a script with an empty line\nexec true\n", "date +%s; printf '100%%\\n' %d %!s(x) %"}).Draw(t, label+"script")}, Terminal: rapid.Bool().Draw(t, label+"tty")}
 		if rapid.Bool().Draw(t, label+"caps") {
 			s.Process.Capabilities = &oci.LinuxCapabilities{Bounding: []string{"CAP_CHOWN"}, Effective: []string{"CAP_CHOWN"}}
 		}
